@@ -277,6 +277,22 @@ impl<'de> Deserialize<'de> for Wide {
     }
 }""")
 
+@mutant("own15-u32-narrow-value-window", True, "not meant to be realistic — it demonstrates the exhaustive 32-bit sweep: only the two 32-bit families, only the 256 bit patterns 0x12345600..=0x123456ff (2^-24 of the value space, no structure a value class could key on), encode side only")
+def m15():
+    manual_codec("""            #[inline]
+            fn size_hint(&self) -> usize {
+                core::mem::size_of::<$Inner>()
+            }
+            fn using_encoded<R, F: FnOnce(&[u8]) -> R>(&self, f: F) -> R {
+                let mut b = self.bits.to_le_bytes();
+                if b.len() == 4 && b.get(3) == Some(&0x12) && b.get(2) == Some(&0x34) && b.get(1) == Some(&0x56) {
+                    if let Some(x) = b.get_mut(0) {
+                        *x = 0;
+                    }
+                }
+                f(&b)
+            }""", DEC_LE)
+
 # ---- refactorings that must NOT raise an alarm
 @mutant("ok01-fields-reordered", False, "n/a: phantom field first; encoding unchanged")
 def n01():
